@@ -11,7 +11,7 @@ from typing import List, Optional, Tuple
 from harness.core import sp
 
 PID = "C09"
-RULE = ("a case is an argparse PROGRAM (constructor keywords prefix_chars / conflict_handler / allow_abbrev / "
+RULE = ("a case is an argparse PROGRAM (constructor keywords prefix_chars in {-, +-, -+, +} with user options under either prefix character and -h/--help/+h/++help tokens / conflict_handler / allow_abbrev / "
         "argument_default / exit_on_error, then an ordered declaration list over: positionals with nargs None,?,*,+,2; "
         "options with store / store_true / store_false / store_const / count / append / append_const / extend, type=int, "
         "choices, defaults, required; argument groups; mutually exclusive groups (required or not); set_defaults on "
@@ -636,7 +636,7 @@ def _help_after_bad_subgroup(case, obs, fail):
     if fail.get("clause") != "decision" or not has_subgroup(c):
         return False
     pf = obs.get("pre_fail")
-    return (any(t in ("-h", "--help", "--hel", "--he", "--h") for t in c["argv"]) and pf is not None and pf.get("o") == "exit"
+    return (any(t in ("-h", "--help", "--hel", "--he", "--h", "+h", "++help", "++hel", "++he", "++h") for t in c["argv"]) and pf is not None and pf.get("o") == "exit"
             and pf.get("code") == 2 and decision(obs["sp"]) == "reject" and decision(obs["twin"]) == "exit0")
 
 
@@ -805,13 +805,15 @@ def gen_pos(rng, name):
 
 def gen_program(rng):
     pc = {}
-    if rng.random() < 0.12:
-        pc["prefix_chars"] = "-+"
+    if rng.random() < 0.22:
+        # "-" first, "-" present but not first, "-" absent (the last only without dataclasses: their options are
+        # always spelled with "-", which such a parser cannot declare)
+        pc["prefix_chars"] = rng.choice(["+-", "+-", "+-", "-+", "-+", "-+", "+"])
     if rng.random() < 0.12:
         pc["conflict_handler"] = "resolve"
     if rng.random() < 0.1:
         pc["allow_abbrev"] = False
-    if rng.random() < 0.1:
+    if rng.random() < 0.14:
         pc["argument_default"] = rng.choice(["SUPPRESS", I(77)])
     if rng.random() < 0.05:
         pc["add_help"] = False
@@ -824,6 +826,9 @@ def gen_program(rng):
     rng.shuffle(opts)
     if "prefix_chars" in pc:
         opts.insert(0, ["+p", "++plus"])
+        only_plus = "-" not in pc["prefix_chars"]
+        opts = [[("+" * (len(f) - len(f.lstrip("-"))) + f.lstrip("-")) if (only_plus or rng.random() < 0.4) else f for f in fl]
+                for fl in opts]
     decls = []
     n_opt = rng.randint(1, 5)
     containers = 0
@@ -863,7 +868,7 @@ def gen_program(rng):
     # relative to their users because inserts never move a user before its container)
     decls = fix_order(decls)
     if pc.get("conflict_handler") == "resolve":
-        args = [d for d in decls if d["k"] == "arg" and d["flags"][0].startswith("-")]
+        args = [d for d in decls if d["k"] == "arg" and d["flags"][0][0] in "-+"]
         if args:
             src = rng.choice(args)
             dup = gen_arg(rng, [src["flags"][-1]])
@@ -871,6 +876,11 @@ def gen_program(rng):
                 decls.append({"k": "group", "title": "GR", "kw": {}})
                 dup["in"] = sum(1 for d in decls if d["k"] in ("group", "mutex")) - 1
             decls.append(dup)
+    if "argument_default" in pc and opts and rng.random() < 0.7:
+        # an argument without its own default inside an explicit group: it must inherit the parser's argument_default
+        decls.append({"k": "group", "title": "GD", "kw": {}})
+        decls.append({"k": "arg", "flags": opts.pop(), "kw": rng.choice([{}, {"type": "int"}, {"nargs": "?"}]),
+                      "in": sum(1 for d in decls if d["k"] in ("group", "mutex")) - 1})
     if isinstance(pc.get("argument_default"), dict) and any(
             d["k"] == "arg" and d.get("kw", {}).get("action") in ("append", "append_const", "extend", "count") for d in decls):
         pc["argument_default"] = "SUPPRESS"     # an int default under a list-valued action is a broken program
@@ -972,7 +982,7 @@ def user_segment(rng, d, good=True):
     f = rng.choice(flags)
     if cnt == 1 and rng.random() < 0.3 and len(f) > 2:
         return [f + "=" + vals[0]]
-    if rng.random() < 0.15 and len(f) > 4 and f.startswith("--"):
+    if rng.random() < 0.15 and len(f) > 4 and f[:2] in ("--", "++"):
         f = f[: rng.randint(3, len(f) - 1)]  # abbreviation
     return [f] + vals
 
@@ -1060,6 +1070,12 @@ def gen_argv(rng, c, valid_only=False):
             segs.append([rng.choice(["-h", "--help"])])
         elif r < 0.28:
             segs.append([rng.choice(["-5", "-1.5"])])
+        if "prefix_chars" in c["parser"]:
+            r = rng.random()
+            if r < 0.3:
+                segs.append([rng.choice(["-h", "--help", "+h", "++help"])])      # help under both spellings
+            elif r < 0.4:
+                segs.append([rng.choice(["+z", "++zz", "++unknown=3", "++he", "+5"])])
     rng.shuffle(segs)
     return [t for s in segs for t in s]
 
@@ -1067,6 +1083,9 @@ def gen_argv(rng, c, valid_only=False):
 def gen_case(rng, op, kind="normal"):
     classes, regs = gen_forest(rng)
     pc, decls = gen_program(rng)
+    no_dash = "-" not in pc.get("prefix_chars", "-")
+    if no_dash:
+        classes, regs, kind = [], [], "plain"
     # place the add_arguments calls inside the program
     for i in range(len(regs)):
         decls.insert(rng.randint(0, len(decls)), {"k": "add_arguments", "reg": i})
@@ -1080,6 +1099,8 @@ def gen_case(rng, op, kind="normal"):
     decls = fix_order(decls)
     c = {"parser": pc, "decls": decls, "classes": classes, "regs": regs,
          "api": rng.choice(["parse_args", "parse_known_args"]), "argv": [], "disjoint": True}
+    if no_dash:
+        c["api"] = "parse_known_args" if rng.random() < 0.7 else c["api"]
     if kind == "parents" or (kind == "normal" and rng.random() < 0.08):
         pds = [gen_arg(rng, f) for f in rng.sample([["--pv"], ["--pw"], ["-P", "--pflag"]], rng.randint(1, 2))]
         if rng.random() < 0.3:
@@ -1128,7 +1149,7 @@ def gen_case(rng, op, kind="normal"):
 
 
 def gen(rng, tier):
-    n = 330 if tier == "quick" else 6000
+    n = 330 if tier == "quick" else 3600
     for i in range(n):
         r = rng.random()
         kind = "normal"
